@@ -381,6 +381,19 @@ def check(case):
                 seen_clauses.add(f.clause)
                 f.detail = {'edited': sh.model_str(em)}
                 out.append(f)
+    # the same expression under another constraint name: equal, hence equal hashes
+    for cn, t in model[1]:
+        a, b = bd.constraint(cn, t), bd.constraint(cn + 'other', t)
+        _eq_contract(a, b, 'constraint-other-name', out, a == b)
+    if model[1]:
+        renamed = (model[0], tuple(('k%d' % i, t) for i, (_n, t) in enumerate(reversed(model[1]))))
+        _eq_contract(fm, bd.build(renamed), 'model-other-ctc-names', out, True)
+    # letter-case variants of a name: whatever equality says, the hash contract must hold
+    from flamapy.metamodels.fm_metamodel.models import Feature
+    for n in sh.names(model)[:3]:
+        for v in {n.upper(), n.lower(), n.swapcase()} - {n}:
+            f1, f2 = Feature(n), Feature(v)
+            _eq_contract(f1, f2, 'feature-case-variant', out, f1 == f2)
     # element level inequalities
     fl = list(feats.values())
     for a, b in zip(fl, fl[1:]):
